@@ -298,14 +298,15 @@ func genTable(s *Stream, idx int, o *GenOpts) *TableDef {
 	}
 	if o.WideTables && s.Chance(1, wc) {
 		ncols = 250 + s.N(351)
-		if s.Chance(1, 3) {
-			ncols = 66 + s.N(80)
+		if s.Chance(1, 3) || (o.WideChance > 0 && s.Chance(3, 4)) {
+			ncols = 66 + s.N(80) // (a frequent-wide family keeps most of them just beyond 64 columns)
 		}
 	}
 	prof := o.Prof
 	tailRef := -1
 	if ncols > 65 {
 		prof.Kinds = []colKind{kTiny, kShort, kLong, kYear, kDate, kVarchar, kEnum}
+		prof.BigChance = 0 // (hundreds of columns with kilobyte cells each: megabytes per row)
 		if s.Chance(1, 2) {
 			// numbers and dates in front, the by-reference columns all behind the
 			// 64th column
